@@ -22,6 +22,8 @@ inductive Clause
   | jsonRoundtrip        -- JsonDecode (JsonEncode v) ≠ v
   | messageOnlyObjects   -- JsonRpc::DecodeMessage returned something that is not a dictionary (null pointer, other value)
   | messageNotObjectText -- JsonRpc::DecodeMessage returned a dictionary for a payload that is not a JSON object text
+  | utf8Wellformed       -- ValidateUTF8 returned bytes that are not well-formed UTF-8
+  | utf8KeepsValid       -- ValidateUTF8 changed a well-formed input
   | noCrash              -- the real code crashed, aborted or hung while processing the case
   deriving Repr, DecidableEq
 
@@ -31,6 +33,7 @@ def Clause.name : Clause → String
   | .framesSplit => "framesSplit" | .framesEnd => "framesEnd" | .readerEnds => "readerEnds"
   | .itemsInside => "itemsInside" | .writerFormat => "writerFormat" | .jsonRoundtrip => "jsonRoundtrip"
   | .messageOnlyObjects => "messageOnlyObjects" | .messageNotObjectText => "messageNotObjectText" | .noCrash => "no_crash"
+  | .utf8Wellformed => "utf8Wellformed" | .utf8KeepsValid => "utf8KeepsValid"
 
 /-! ### frames from the network -/
 
